@@ -231,7 +231,7 @@ func TestC14_Limit(t *testing.T) {
 		t.Fatalf("ValidateLimit(0) = %d, %v: the default must be accepted and lie in 1..100", d, err)
 	}
 	rapid.Check(t, func(t *rapid.T) {
-		n := rapid.OneOf(rapid.SampledFrom([]int{-1, 0, 1, 2, 5, 99, 100, 101, 102, 1000, math.MinInt, math.MaxInt, math.MinInt32, math.MaxInt32}), rapid.IntRange(-200, 300), rapid.Int()).Draw(t, "limit")
+		n := rapid.OneOf(rapid.SampledFrom([]int{-1, 0, 1, 2, 5, 99, 100, 101, 102, 1000, math.MinInt, math.MaxInt, math.MinInt32, math.MaxInt32, math.MaxInt / 2, math.MaxInt/2 + 1, math.MaxInt/3 + 1, math.MaxInt/3 + 34, 1 << 62, 4000000000000000000, math.MaxInt/100 + 1, math.MinInt / 2, math.MinInt/3 - 1, 1 << 32, 1<<32 + 5, 1<<31 + 100}), rapid.IntRange(-200, 300), rapid.Int(), rapid.IntRange(math.MaxInt/128, math.MaxInt), rapid.IntRange(math.MinInt, math.MinInt/128)).Draw(t, "limit")
 		v, err := validation.ValidateLimit(n)
 		switch {
 		case err == nil && (v < 1 || v > 100):
